@@ -68,6 +68,13 @@ struct hwloc_synthetic_intlv_loop_s {
   unsigned level_depth;
 };
 
+static int
+hwloc_synthetic_compare_indexes(const void *_a, const void *_b)
+{
+  unsigned a = *(const unsigned *) _a, b = *(const unsigned *) _b;
+  return a < b ? -1 : a > b;
+}
+
 static void
 hwloc_synthetic_process_indexes(struct hwloc_synthetic_backend_data_s *data,
 				struct hwloc_synthetic_indexes_s *indexes,
@@ -114,6 +121,24 @@ hwloc_synthetic_process_indexes(struct hwloc_synthetic_backend_data_s *data,
 	attr = next;
       }
     }
+
+    /* two objects cannot have the same index */
+    {
+      unsigned *sorted = malloc(total * sizeof(*sorted));
+      if (!sorted)
+	goto out_with_array;
+      memcpy(sorted, array, total * sizeof(*sorted));
+      qsort(sorted, total, sizeof(*sorted), hwloc_synthetic_compare_indexes);
+      for(i=1; i<total; i++)
+	if (sorted[i] == sorted[i-1]) {
+	  if (verbose)
+	    fprintf(stderr, "Duplicate synthetic index %u\n", sorted[i]);
+	  free(sorted);
+	  goto out_with_array;
+	}
+      free(sorted);
+    }
+
     indexes->array = array;
 
   } else {
